@@ -122,6 +122,14 @@ func (d *FileSystemDirectory) Persist(kind string, id uint64, w WriterTo, closeC
 		_ = os.Remove(path)
 	}
 
+	// a file of this name may be left over from an earlier run; now that we
+	// hold the lock, make sure the item ends up with exactly what is written
+	err = f.File().Truncate(0)
+	if err != nil {
+		cleanup()
+		return err
+	}
+
 	_, err = w.WriteTo(f.File(), closeCh)
 	if err != nil {
 		cleanup()
